@@ -292,6 +292,109 @@ pub fn generate(family: &str, seed: u64, tier: &str) -> Vec<String> {
                 out.push(sc);
             }
         }
+        // C06: gzip / deflate streams under every framing, segmentation and read size; truncation; trailer damage
+        "x_coded" => {
+            let mut r = Rng::new(seed ^ 0xC0DE);
+            let mut id = 0usize;
+            let mut push = |out: &mut Vec<Value>, mut sc: Value| {
+                sc["id"] = json!(format!("xc-{}", id));
+                id += 1;
+                out.push(sc);
+            };
+            let plens: Vec<usize> = if thorough { vec![0, 1, 2, 100, 5000, 65536, 70000, 300_000, 1_200_000] } else { vec![0, 1, 100, 5000, 70000, 300_000] };
+            let framings = ["length", "chunked", "close"];
+            let steps_all = [
+                json!({"steps":[["send"],["bytes"]]}),
+                json!({"steps":[["send"],["reads"]],"pat":[1],"extra":2,"maxlen":6000}),
+                json!({"steps":[["send"],["reads"]],"pat":[8192],"extra":1}),
+                json!({"steps":[["send"],["reads"]],"pat":[0,7,65536],"extra":2}),
+                json!({"steps":[["send"],["write_to",1000]]}),
+                json!({"steps":[["send"],["text_utf8_raw"]],"pk":"ascii"}),
+            ];
+            for coding in ["gzip", "deflate"] {
+                for (pi, &plen) in plens.iter().enumerate() {
+                    for pk in ["bytes", "rep", "ascii"] {
+                        for level in 0..10usize {
+                            if !thorough && (level + pi) % 3 != 0 && level != 0 && level != 9 {
+                                continue;
+                            }
+                            let framing = framings[(level + pi) % 3];
+                            let st = &steps_all[(level + pi + pk.len()) % steps_all.len()];
+                            if gu(st, "maxlen") > 0 && plen > gu(st, "maxlen") {
+                                continue;
+                            }
+                            let mut sc = with(st, json!({"coding":coding,"level":level,"plen":plen,"pk":if st.get("pk").is_some() {"ascii"} else {pk},"seed":r.below(1000),
+                                "body":{"kind":framing,"chunkpat":[*r.pick(&[1usize, 13, 4096, 65536, 100000]), *r.pick(&[5usize, 65537, 8192])]}}));
+                            if coding == "gzip" && level % 4 == 1 {
+                                sc["gz"] = json!({"name":"payload.bin","comment":"a comment","extra":"XTRA"});
+                            }
+                            match r.below(4) {
+                                0 => sc["pre"] = json!(10_000_000),
+                                1 => sc["segs"] = json!(vec![1; 300]),
+                                2 => sc["segs"] = json!([r.range(1, 200), r.range(1, 5000), r.range(1, 70000)]),
+                                _ => { sc["segs"] = json!([r.range(1, 9000)]); sc["maxread"] = json!(*r.pick(&[0usize, 1460, 17])); }
+                            }
+                            if sc["maxread"] == json!(17) && plen > 100_000 && pk == "bytes" {
+                                sc["maxread"] = json!(1460);
+                            }
+                            push(&mut out, sc);
+                        }
+                    }
+                }
+                // truncation of the compressed stream at every offset (small) / boundary-biased (large), trailer bit flips
+                for (plen, pk) in [(0usize, "bytes"), (1, "bytes"), (40, "ascii"), (300, "rep"), (3000, "bytes"), (70_000, "rep")] {
+                    for framing in framings {
+                        let base = json!({"coding":coding,"level":6,"plen":plen,"pk":pk,"seed":3,"body":{"kind":framing,"chunkpat":[9, 200]},
+                            "gz": if plen == 40 { json!({"name":"n","comment":"c","extra":"e"}) } else { Value::Null }});
+                        let rd = render(&base);
+                        let he = gu(&rd.script, "headEnd");
+                        let wl = rd.wire.len();
+                        let offsets: Vec<usize> = if wl - he <= 120 || thorough && wl - he <= 700 {
+                            (he..wl).collect()
+                        } else {
+                            let mut v: Vec<usize> = (he..he + 24).chain(wl - 24..wl).collect();
+                            for _ in 0..12 {
+                                v.push(r.range(he, wl - 1));
+                            }
+                            v
+                        };
+                        for (oi, at) in offsets.iter().enumerate() {
+                            let st = &steps_all[oi % 5];
+                            if gu(st, "maxlen") > 0 && plen > gu(st, "maxlen") {
+                                continue;
+                            }
+                            let mut sc = with(&with(&base, st.clone()), json!({"fault":{"kind":"cut","at":at},"extra":2}));
+                            if oi % 2 == 0 { sc["pre"] = json!(10_000_000); } else { sc["segs"] = json!([he + 3, 5, 1]); }
+                            push(&mut out, sc);
+                        }
+                        if coding == "gzip" {
+                            for bit in 1..=64i64 {
+                                if !thorough && plen > 300 && bit % 5 != 0 {
+                                    continue;
+                                }
+                                let st = &steps_all[(bit as usize) % 5];
+                                if gu(st, "maxlen") > 0 && plen > gu(st, "maxlen") {
+                                    continue;
+                                }
+                                push(&mut out, with(&with(&base, st.clone()), json!({"flipbits":[-bit],"fault":{"kind":"bad","what":"trailer"},"extra":1,"pre":10_000_000})));
+                            }
+                        }
+                    }
+                }
+            }
+            // no coding declared: octets that look like a gzip stream pass through untouched
+            for framing in framings {
+                let gzbytes = {
+                    use std::io::Write;
+                    let mut e = flate2::write::GzEncoder::new(Vec::new(), flate2::Compression::default());
+                    e.write_all(b"hello hello hello").unwrap();
+                    e.finish().unwrap()
+                };
+                push(&mut out, json!({"payload_hex":hex(&gzbytes),"plen":gzbytes.len(),"body":{"kind":framing},"steps":[["send"],["bytes"]],"pre":100000}));
+                push(&mut out, json!({"payload_hex":hex(&gzbytes),"plen":gzbytes.len(),"body":{"kind":framing},"hdrs":[["Content-Encoding","br"]],"steps":[["send"],["reads"]],"pat":[5],"extra":1}));
+                push(&mut out, json!({"payload_hex":hex(&gzbytes),"plen":gzbytes.len(),"body":{"kind":framing},"allow_compression":false,"steps":[["send"],["bytes"]],"pre":100000}));
+            }
+        }
         _ => panic!("unknown family {}", family),
     }
     out.into_iter().map(|v| v.to_string()).collect()
@@ -343,4 +446,54 @@ pub fn framing_row_to_scenario(row: &Value) -> Option<Value> {
         sc["g19"] = json!(true);
     }
     Some(sc)
+}
+
+/// A row of the coding selection table printed by TLC (MC_Coding) -> exchange scenario.
+pub fn coding_row_to_scenario(row: &Value, index: usize) -> Option<Value> {
+    let sel = gs(row, "sel");
+    if sel == "unguarded" {
+        return None;
+    }
+    let ce: Vec<&str> = ga(row, "ce").iter().map(|x| x.as_str().unwrap()).collect();
+    let te: Vec<&str> = ga(row, "te").iter().map(|x| x.as_str().unwrap()).collect();
+    let framing = gs(row, "framing");
+    let mut hdrs: Vec<Value> = Vec::new();
+    if !ce.is_empty() {
+        if index % 2 == 0 || ce.len() == 1 {
+            hdrs.push(json!(["Content-Encoding", ce.join(", ")]));
+        } else {
+            for t in &ce {
+                hdrs.push(json!(["content-encoding", t]));
+            }
+        }
+    }
+    let mut body = json!({"kind": framing});
+    let mut tes: Vec<String> = te.iter().map(|s| s.to_string()).collect();
+    if framing == "chunked" {
+        tes.push(if index % 3 == 0 { "Chunked".into() } else { "chunked".into() });
+        body["chunkpat"] = json!([7, 1, 64]);
+    }
+    if !tes.is_empty() {
+        if index % 2 == 0 {
+            body["te"] = json!([tes.join(", ")]);
+        } else {
+            body["te"] = json!(tes);
+        }
+    }
+    // the server applies the coding its header fields declare (for HEAD nothing is sent that matters)
+    let declared: Vec<String> = ce.iter().chain(te.iter()).map(|t| t.to_ascii_lowercase()).collect();
+    let applied = if declared.iter().any(|t| t == "gzip") { "gzip" } else if declared.iter().any(|t| t == "deflate") { "deflate" } else { "identity" };
+    let steps = match index % 3 {
+        0 => json!([["send"], ["bytes"]]),
+        1 => json!([["send"], ["reads"]]),
+        _ => json!([["send"], ["write_to", 5]]),
+    };
+    Some(json!({
+        "id": gs(row, "id"), "method": gs(row, "method"), "status": 200, "hdrs": hdrs, "body": body,
+        "plen": 150 + index % 50, "seed": index, "pk": if index % 2 == 0 { "rep" } else { "bytes" },
+        "coding": applied, "coding_explicit": true, "level": index % 10,
+        "expect": {"framing": if gs(row, "method") == "HEAD" { "none" } else { framing }},
+        "steps": steps, "pat": [1 + index % 40], "extra": 1,
+        "segs": if index % 4 == 0 { json!([]) } else { json!([3 + index % 90, 1, 2]) }, "pre": if index % 4 == 0 { 100000 } else { 0 },
+    }))
 }
